@@ -342,9 +342,16 @@ fn shrink(batch: &Batch, prop: &str, rule: &str, tape: Vec<u32>) -> (Vec<u32>, u
         let rec = run_one(batch, Tape::replay(cand.clone()), false);
         rec.harness_panic.is_none() && rec.out.violations.iter().any(|v| v.prop == prop && v.rule == rule)
     };
-    // the run may not have consumed the whole tape; trailing zeros are implied
-    while best.last() == Some(&0) {
-        best.pop();
+    // trailing zeros are implied by the replay rule (exhausted tape => 0); drop them if the
+    // violation does not depend on the literal tape length (paired replays hash the tape)
+    {
+        let mut cand = best.clone();
+        while cand.last() == Some(&0) {
+            cand.pop();
+        }
+        if cand.len() != best.len() && test(&cand, &mut budget, &mut execs) {
+            best = cand;
+        }
     }
     let mut improved = true;
     while improved && budget > 0 {
@@ -404,8 +411,12 @@ fn shrink(batch: &Batch, prop: &str, rule: &str, tape: Vec<u32>) -> (Vec<u32>, u
             }
             i += 1;
         }
-        while best.last() == Some(&0) {
-            best.pop();
+        let mut cand = best.clone();
+        while cand.last() == Some(&0) {
+            cand.pop();
+        }
+        if cand.len() != best.len() && test(&cand, &mut budget, &mut execs) {
+            best = cand;
         }
     }
     (best, execs)
